@@ -31,18 +31,29 @@ ASSETS = os.path.join(os.path.dirname(os.path.abspath(__file__)), "assets")
 
 # ------------------------------------------------------------------ the pools
 
-QSETS = {
-    "q3": [[0.01, 0.1, 0.3]],
-    "q3b": [[0.02, 0.15, 0.25]],            # same length as q3, other values
-    "q5": [[0.005, 0.02, 0.08, 0.2, 0.4]],
-    "q17": [list(np.logspace(-3, -0.3, 17))],
-    "xy4": [[0.05, 0.1, -0.05, 0.2], [0.0, 0.05, 0.1, -0.1]],
-    "xy4b": [[0.03, -0.12, 0.07, 0.18], [0.02, 0.04, -0.09, 0.11]],
-    "xy9": [[x for x in (-0.1, 0.02, 0.15) for _ in range(3)],
-            [y for _ in range(3) for y in (-0.08, 0.01, 0.12)]],
+# Arrays are long-lived caller objects: one ndarray per name and per process,
+# handed to every call that uses it (a caller evaluating on "its" q vector
+# passes the same object again and again; a 2-D request may reuse the 1-D
+# array as its qx).
+QARRAYS = {
+    "a3": [0.01, 0.1, 0.3],
+    "a3b": [0.02, 0.15, 0.25],              # same length as a3, other values
+    "a5": [0.005, 0.02, 0.08, 0.2, 0.4],
+    "a17": list(np.logspace(-3, -0.3, 17)),
+    "y3": [0.0, 0.05, -0.1],
+    "x4": [0.05, 0.1, -0.05, 0.2], "y4": [0.0, 0.05, 0.1, -0.1],
+    "x4b": [0.03, -0.12, 0.07, 0.18], "y4b": [0.02, 0.04, -0.09, 0.11],
+    "x9": [x for x in (-0.1, 0.02, 0.15) for _ in range(3)],
+    "y9": [y for _ in range(3) for y in (-0.08, 0.01, 0.12)],
 }
+QSETS = {
+    "q3": ["a3"], "q3b": ["a3b"], "q5": ["a5"], "q17": ["a17"],
+    "xy3": ["a3", "y3"],                     # qx is the very array used as 1-D q
+    "xy4": ["x4", "y4"], "xy4b": ["x4b", "y4b"], "xy9": ["x9", "y9"],
+}
+_QCACHE = {}
 Q1D = ["q3", "q3b", "q5", "q17"]
-Q2D = ["xy4", "xy4b", "xy9"]
+Q2D = ["xy3", "xy4", "xy4b", "xy9"]
 
 MODELS = {
     "sphere": "sphere", "cylinder": "cylinder", "core_multi_shell": "core_multi_shell",
@@ -307,12 +318,16 @@ def _snap(obj):
 
 
 def _q(qkey):
-    return [np.array(v, dtype="d") for v in QSETS[qkey]]
+    owner = os.getpid()
+    if _QCACHE.get("owner") != owner:        # a forked process gets its own arrays
+        _QCACHE.clear()
+        _QCACHE["owner"] = owner
+    return [_QCACHE.setdefault(name, np.array(QARRAYS[name], dtype="d")) for name in QSETS[qkey]]
 
 
 def _make_data(kind):
     from sasmodels import data as sdata
-    q = np.array(QSETS["q17"][0])
+    q = np.array(QARRAYS["a17"])
     if kind == "perfect":
         return sdata.empty_data1D(q)
     if kind == "pinhole":
@@ -979,6 +994,14 @@ def sweep_configs(tier):
                         ops.append({"op": "call", "k": "k1", "model": model, "fn": fn, "pars": key,
                                     "cutoff": 0.0, "mono": False})
             out.append({"kind": "history", "ops": ops, "recheck_seed": 1, "family": "ordered_pairs"})
+    # 1-D and 2-D kernels made alternately on one model from q sets that share an array object
+    for model, key in (("sphere", "def"), ("cylinder", "thin"), ("sphere", "mag")):
+        ops = [{"op": "load", "id": "m1", "model": model, "dtype": "double"}]
+        for n_, qk in enumerate(["q3", "xy3", "q3", "xy4", "xy3", "q3b", "q3"]):
+            kid = "k%d" % (n_ + 1)
+            ops.append({"op": "make_kernel", "id": kid, "m": "m1", "q": qk, "model": model})
+            ops.append({"op": "call", "k": kid, "model": model, "fn": "Iq", "pars": key, "cutoff": 0.0, "mono": False})
+        out.append({"kind": "history", "ops": ops, "recheck_seed": 4, "family": "kernels_1d_2d_shared_array"})
     # several calculators with different data on one model, interleaved (resolution
     # and transform objects built for one data set must not leak into another)
     for model, pk in (("sphere", ["def", "pd"]), ("cylinder", ["def", "pd2"])):
